@@ -69,7 +69,7 @@ def TU(name, op, nlen, idx=None, **kw):
           "verif_memmove_w.0:%d" % (lm + 2), "verif_memmove_w.1:%d" % (lm + 2), "Tuple_Sort_Part:%d" % (nlen + 1), "Tuple_Sort_Partition.0:%d" % (nlen + 2), "Tuple_Rem.0:%d" % (nlen + 2)]
     defs = ["OP=%s" % op, "NLEN=%d" % nlen, "VCW=24", "VCW_BLOCKS=3"] + (["IDXC=%d" % idx] if idx is not None else [])
     return Ob("tuple.%s.n%d%s" % (name, nlen, "" if idx is None else ".i%d" % idx), "C04/tuple_step.c", defs=defs, replace=["Tuple.c"], srcs_extra=["env_vcapw.c"],
-              unwind=lm + 2, unwindset=us, checks=["bounds", "pointer"], tiers=("quick", "thorough"), timeout=900, mem_gb=16 if name == "rem" else 6, **kw)
+              unwind=lm + 2, unwindset=us, checks=["bounds", "pointer"], tiers=("quick", "thorough"), timeout=900, mem_gb=16 if name == "rem" else 6, backend="cadical" if name == "mem" else None, **kw)
 TOPS = [("push", "OP_PUSH"), ("pop", "OP_POP"), ("push_at", "OP_PUSH_AT"), ("pop_at", "OP_POP_AT"), ("getset", "OP_GETSET"), ("rem", "OP_REM"), ("mem", "OP_MEM"), ("concat", "OP_CONCAT"),
         ("resize", "OP_RESIZE"), ("sort", "OP_SORT"), ("iter", "OP_ITER"), ("bad_index", "OP_BAD_INDEX"), ("mark", "OP_MARK")]
 TUPLE = [TU("pop_empty", "OP_POP_EMPTY", 0)]
